@@ -309,8 +309,8 @@ class Ctx(object):
             return 'unsat'
         r, m = self.solve(neg)
         if r == 'sat':
-            # full model for replay
-            r2, m2 = self.solve(neg, full=True)
+            # full model for replay (a convenience: short time limit; the slice model is kept otherwise)
+            r2, m2 = self.solve(neg, full=True, timeout_ms=min(self.timeout_ms, 15000))
             if r2 == 'sat': m = m2
             # a model must really falsify the obligation (seen under heavy machine
             # load: a `sat` answer whose model does not): evaluate, re-ask once, and
